@@ -275,7 +275,14 @@ impl<'a, R: RealNumberInternalTrait> Interpreter<'a, R> {
             .iter()
             .map(|arg| Self::eval_expression(arg, env))
             .collect::<Result<ArgVec<_>>>()?;
-        Ok((first.expect_procedure()?, evaluated_args_result))
+        match first {
+            Value::Procedure(procedure) => Ok((procedure, evaluated_args_result)),
+            // located at the operator, like the same fault met by eval_expression
+            other => located_error!(
+                LogicError::TypeMisMatch(other.to_string(), Type::Procedure),
+                procedure_expr.location
+            ),
+        }
     }
 
     pub fn apply_procedure(
